@@ -228,6 +228,10 @@ fn framings() -> Vec<Framing> {
     v.push(Framing { splits: vec![1], ..Default::default() });
     v.push(Framing { splits: vec![2, 5], ..Default::default() });
     // undefined flag bits on the CONTINUATION frames (the ones that mean PADDED / PRIORITY / END_STREAM on HEADERS)
+    for hf in [0x02u8, 0x10, 0x40, 0x80, 0xd2] {
+        v.push(Framing { hdr_flags: hf, ..Default::default() });
+        v.push(Framing { hdr_flags: hf, pad: Some(2), prio: Some((true, 3, 8)), splits: vec![3], ..Default::default() });
+    }
     for cf in [0x08u8, 0x20, 0x29, 0xfb] {
         v.push(Framing { splits: vec![2], cont_flags: cf, ..Default::default() });
         v.push(Framing { splits: vec![1, 4], cont_flags: cf, pad: Some(2), ..Default::default() });
